@@ -283,3 +283,96 @@ package sstables
 //@   props C08
 //@   ensures r0.readers === readers && r0.comp == comp
 //@   modifies nothing
+
+// ---------------------------------------------------------------------------------------------------
+// C08: table views. thas(r,k): table r holds key k (tombstones included); tval(r,k): the value slice Get returns for it;
+// tioErr(r,k): the I/O error a lookup of k in r runs into (nil = none). The view of an opened table does not change.
+
+//@ spec func thas(r Ref, k Bytes) Bool
+//@ spec func tval(r Ref, k Bytes) Slice
+//@ spec func tioErr(r Ref, k Bytes) Err
+
+//@ iface SSTableReaderI.Get
+//@   ensures [io-error] tioErr(this, content(key)) != nil ==> r1 == tioErr(this, content(key)) && !errIs(r1, NotFound)
+//@   ensures [found] tioErr(this, content(key)) == nil && thas(this, content(key)) ==> r1 == nil && r0 === tval(this, content(key))
+//@   ensures [not-found] tioErr(this, content(key)) == nil && !thas(this, content(key)) ==> r1 != nil && errIs(r1, NotFound)
+//@   pure
+
+//@ iface SSTableReaderI.Contains
+//@   ensures [io-error] tioErr(this, content(key)) != nil ==> r1 == tioErr(this, content(key))
+//@   ensures [answer] tioErr(this, content(key)) == nil ==> r1 == nil && (r0 <==> thas(this, content(key)))
+//@   pure
+
+//@ iface SSTableReaderI.ScanStartingAt
+//@   ensures r1 == nil ==> r0 != nil && itPos(r0) == 0
+//@   fresh r0
+//@   modifies nothing
+
+//@ iface SSTableReaderI.ScanRange
+//@   ensures r1 == nil ==> r0 != nil && itPos(r0) == 0
+//@   fresh r0
+//@   modifies nothing
+
+//@ func (SuperSSTableReader).Get
+//@   props C08 C01
+//@   replay super_reader_model
+//@   requires forall t :: 0 <= t && t < len(s.readers) ==> s.readers[t] != nil
+//@   ensures [newest-table-wins] forall i :: 0 <= i && i < len(s.readers) && thas(s.readers[i], content(key)) &&
+//@           (forall j :: i < j && j < len(s.readers) ==> !thas(s.readers[j], content(key))) &&
+//@           (forall j :: i <= j && j < len(s.readers) ==> tioErr(s.readers[j], content(key)) == nil) ==>
+//@           r1 == nil && r0 === tval(s.readers[i], content(key))
+//@   ensures [absent-everywhere] (forall j :: 0 <= j && j < len(s.readers) ==> !thas(s.readers[j], content(key)) && tioErr(s.readers[j], content(key)) == nil) ==> r1 == NotFound
+//@   ensures [io-error-reported] r1 == nil ==> exists i :: 0 <= i && i < len(s.readers) && thas(s.readers[i], content(key)) && tioErr(s.readers[i], content(key)) == nil
+//@   modifies nothing
+//@   safety on
+//@   loop 0
+//@     invariant -1 <= i && i < len(s.readers)
+//@     invariant forall j :: i < j && j < len(s.readers) ==> !thas(s.readers[j], content(key)) && tioErr(s.readers[j], content(key)) == nil
+
+//@ func (SuperSSTableReader).Contains
+//@   props C08
+//@   requires forall t :: 0 <= t && t < len(s.readers) ==> s.readers[t] != nil
+//@   ensures [some-table-has-it] r1 == nil && r0 ==> exists i :: 0 <= i && i < len(s.readers) && thas(s.readers[i], content(key))
+//@   ensures [no-table-has-it] r1 == nil && !r0 ==> forall i :: 0 <= i && i < len(s.readers) ==> !thas(s.readers[i], content(key))
+//@   modifies nothing
+//@   safety on
+//@   loop 0
+//@     invariant -1 <= i && i < len(s.readers)
+//@     invariant forall j :: i < j && j < len(s.readers) ==> !thas(s.readers[j], content(key)) && tioErr(s.readers[j], content(key)) == nil
+
+//@ func (SuperSSTableReader).Scan
+//@   props C08
+//@   replay super_reader_model
+//@   requires forall t :: 0 <= t && t < len(s.readers) ==> s.readers[t] != nil
+//@   call 0 of MergeCompactIterator: assert [every-table-takes-part-with-its-position] len(arg0) == len(s.readers) &&
+//@        (forall j :: 0 <= j && j < len(arg0) ==> arg0[j].ctx == j) && arg1 == fn(scanReduceLatestWinsSkipNil)
+//@   loop 0
+//@     invariant 0 <= iter && iter <= len(s.readers) && len(iterators) == iter
+//@     invariant forall j :: 0 <= j && j < len(iterators) ==> iterators[j].ctx == j
+
+//@ func (SuperSSTableReader).ScanStartingAt
+//@   props C08
+//@   requires forall t :: 0 <= t && t < len(s.readers) ==> s.readers[t] != nil
+//@   call 0 of MergeCompactIterator: assert [every-table-takes-part-with-its-position] len(arg0) == len(s.readers) &&
+//@        (forall j :: 0 <= j && j < len(arg0) ==> arg0[j].ctx == j) && arg1 == fn(scanReduceLatestWinsSkipNil)
+//@   loop 0
+//@     invariant 0 <= iter && iter <= len(s.readers) && len(iterators) == iter
+//@     invariant forall j :: 0 <= j && j < len(iterators) ==> iterators[j].ctx == j
+
+//@ func (SuperSSTableReader).ScanRange
+//@   props C08
+//@   requires forall t :: 0 <= t && t < len(s.readers) ==> s.readers[t] != nil
+//@   call 0 of MergeCompactIterator: assert [every-table-takes-part-with-its-position] len(arg0) == len(s.readers) &&
+//@        (forall j :: 0 <= j && j < len(arg0) ==> arg0[j].ctx == j) && arg1 == fn(scanReduceLatestWinsSkipNil)
+//@   loop 0
+//@     invariant 0 <= iter && iter <= len(s.readers) && len(iterators) == iter
+//@     invariant forall j :: 0 <= j && j < len(iterators) ==> iterators[j].ctx == j
+
+//@ func scanReduceLatestWinsSkipNil
+//@   props C08
+//@   requires len(values) == len(context) && len(context) > 0
+//@   requires forall i :: 0 <= i && i < len(context) ==> context[i] >= 0
+//@   ensures [tombstone-skipped] exists m :: 0 <= m && m < len(context) &&
+//@           (forall i :: 0 <= i && i < len(context) ==> context[i] <= context[m]) &&
+//@           (isnil(values[m]) ==> isnil(r0) && isnil(r1)) && (!isnil(values[m]) ==> r0 === key && r1 === values[m])
+//@   modifies nothing
